@@ -100,7 +100,7 @@ func (p *c32) Init(env *mon.Env) error {
 	return nil
 }
 
-var concMutations = []string{"v=changed", "v+=x", "n=$((n+1))", "a+=q", "a+=(w)", "a[1]=z", "a[5]=far", "unset 'a[0]'", "a[0]+=s", "declare -A m; m[k]=v", "f() { echo redefined; }", "unset -f f", "alias al='echo changed'", "set -f", "set +f", "shopt -s nullglob", "cd sub", "cd ..", "set -- p q r", "shift", "export v", "readonly rr=1", "local_test() { local l=1; a+=(l); }; local_test", "read x <<< hello", ": ${u:=assigned}", "IFS=:", "mapfile -t lines <<< $'a\\nb'", "true | true", "x=$(echo sub)", "eval 'v=evaled'", "echo out >/dev/null", "for i in 1 2; do a+=($i); done"}
+var concMutations = []string{"v=changed", "v+=x", "n=$((n+1))", "a+=q", "a+=(w)", "a[1]=z", "a[5]=far", "unset 'a[0]'", "a[0]+=s", "declare -A m; m[k]=v", "f() { echo redefined; }", "unset -f f", "alias al='echo changed'", "set -f", "set +f", "shopt -s nullglob", "cd sub", "cd ..", "set -- p q r", "shift", "export v", "readonly rr=1", "local_test() { local l=1; a+=(l); }; local_test", "read x <<< hello", ": ${u:=assigned}", "IFS=:", "mapfile -t lines <<< $'a\\nb'", "true | true", "x=$(echo sub)", "eval 'v=evaled'", "echo out >/dev/null", "for i in 1 2; do a+=($i); done", "echo \"$v ${a[*]} $n\" >/dev/null", "g=$v$n", "[[ $v == one ]]", "lv=2"}
 
 func (p *c32) Gen(i int, r *rand.Rand) any {
 	c := &ConcCase{Procs: []int{2, 4, 16}[r.IntN(3)]}
@@ -166,6 +166,13 @@ func (p *c32) Gen(i int, r *rand.Rand) any {
 		c.Tags = append(c.Tags, "api-subshell")
 	}
 	c.Src = sb.String()
+	if !c.API && r.IntN(5) < 2 {
+		// the same concurrency started from inside a function body (a scope
+		// layer sits between the job's copy and the globals)
+		body := strings.TrimPrefix(c.Src, prelude)
+		c.Src = prelude + "main() {\nlocal lv=1\n" + body + "}\nmain\n"
+		c.Tags = append(c.Tags, "inside-function")
+	}
 	return c
 }
 
